@@ -77,7 +77,7 @@ func opName(op *Op) string {
 // through one parameter; the rare free-for-all request must not multiply
 // signatures).
 var kindOrder = []string{"table:adv", "sort:adv", "columns:adv", "upsert:adv", "paging:adv", "filter:unparsed", "filter:edge-quote", "filter:lenient", "filter:hostile-value",
-	"body:malformed", "body:adv-key", "body:adv-value", "body:adv-shape", "task:adv", "symbols:unresolved", "symbols:adv"}
+	"body:malformed", "body:adv-key", "body:adv-value", "body:adv-shape", "task:adv", "table:lenient", "symbols:unresolved", "symbols:adv"}
 
 // sigKinds renders the parameter kind of a signature; addressing one of the
 // other tables by its plain name is a documented request and is left out.
@@ -640,9 +640,13 @@ func classify(op *Op, body string, rowids bool) *opParse {
 	p := &opParse{body: body, rowids: rowids, colsDoc: true, sortDoc: true, upDoc: true, limitDoc: true, startDoc: true}
 	p.tname, p.plain = resolveTable(op.Table)
 	p.def = tableDefs[p.tname]
-	if !p.plain {
+	switch {
+	case p.tname == "":
 		p.add("table:adv")
-	} else if p.tname != "items" {
+	case !p.plain:
+		// another spelling of an existing table (quotes, main., letter case)
+		p.add("table:lenient")
+	case p.tname != "items":
 		p.add("table:other")
 	}
 	def := p.def
